@@ -4,7 +4,7 @@ from ..consumerflow import consumer_scenarios, observer_two_reports
 from ..matchflow import match_interp, match_scenarios
 from ..models import make_interp
 from ..values import AbsList, BoolV, ListV, Str
-from ._matchrules import list_len, repeated_operation, reports_after
+from ._matchrules import is_addr_projection, list_len, repeated_operation, reports_after
 
 FLOORS = {"C12.A1.single-writer": 1, "C12.A1.written-together": 1, "C12.A2.return-mode-selects-field": 40,
           "C12.A3.address-projection": 2, "C12.A4.mode-selects-call-only": 1, "C12.A5.modes-not-in-compilation": 1}
@@ -90,7 +90,7 @@ def run(ctx) -> None:
     for mode in ("first_find", "all_finds"):
         full = {r for s in cs if s.mode == mode and not s.only_addr and s.path.kind == "return" for r in map(_shape, s.reported(I0))}
         addr = {r for s in cs if s.mode == mode and s.only_addr and s.path.kind == "return" for r in map(_shape, s.reported(I0))}
-        ok = len(full) == 1 and len(addr) == 1 and list(addr)[0] == list(full)[0] + ".split('::')[0]"
+        ok = len(full) == 1 and len(addr) == 1 and is_addr_projection(list(addr)[0], list(full)[0])
         ctx.check(ok, "C12.A3.address-projection", f"CompleteConsumer[{mode}]", f"addr={sorted(addr)} full={sorted(full)}",
                   "address-only value is split('::')[0] of the text reported in full mode, for the same match")
     sigs = {}
